@@ -387,6 +387,19 @@ Definition lib_point_of_bytes (b : bytes) : point :=
   | [] => None
   end.
 
+(* The same through Key.__init__ with strict=True (the default of HDKey(key=...) and of every import path), as repaired
+   by the C04 fix "Key() with strict=True refuses public keys that are not curve points": prefix 02/03, 32 bytes of x,
+   x < p and (x, y) on the curve, otherwise BKeyError (None). *)
+Definition lib_import_pub (b : bytes) : option point :=
+  match b with
+  | pfx :: rest =>
+      let x := of_be rest in
+      let P : point := Some (x, lib_lift_y (bz pfx =? 3) x) in
+      if ((bz pfx =? 2) || (bz pfx =? 3)) && Nat.eqb (length rest) 32 && (x <? secp_p) && on_curve P
+      then Some P else None
+  | [] => None
+  end.
+
 (* Base58 (change_base(raw, 256, 58, 111) on the 82-byte structure) *)
 Definition b58_alphabet : bytes :=
   [x31; x32; x33; x34; x35; x36; x37; x38; x39; x41; x42; x43; x44; x45; x46; x47; x48; x4a; x4b; x4c;
